@@ -1,9 +1,44 @@
 import PyamgV.Driver.Util
-/-! Driver ops for property C09 (line protocol). Op names are prefixed `c09_`. -/
+import PyamgV.Driver.Relax
+import PyamgV.Model.KRelax
+/-! Driver ops for property C09 (line protocol). Op names are prefixed `c09_`.
+
+The ops below run the SAME models as `Driver/Relax.lean` (`Model/KRelax.lean`), on inputs the older ops cannot
+express: Gaussian-rational data for the indexed / coarse-fine kernels, a complex damping parameter, and explicit
+row lists (the BSR point kernels relax the rows of a block row in sweep direction, i.e. they are the point kernels
+on an explicit list of rows). `c09_r_*` = `Rat`, `c09_c_*` = `CRat`. -/
 namespace PyamgV.Drv.C09
-open PyamgV PyamgV.Drv
+open PyamgV PyamgV.K PyamgV.Drv PyamgV.Drv.Relax
+
+def rows (s : String) : List Nat := (parseNats s).toList
 
 def handle : List String → Option String
+  -- Gauss-Seidel on an explicit list of rows (bsr_gauss_seidel)
+  | ["c09_r_gsrows", n, ap, aj, ax, b, x, rs] =>
+    some <| showRats (gaussSeidel (mkR n ap aj ax) (parseRats b) (rows rs) (parseRats x))
+  | ["c09_c_gsrows", n, ap, aj, ax, b, x, rs] =>
+    some <| showCRats (gaussSeidel (mkC n ap aj ax) (parseCRats b) (rows rs) (parseCRats x))
+  -- weighted Jacobi on an explicit list of rows, temp = full copy of x (bsr_jacobi, bsr_jacobi_indexed)
+  | ["c09_r_jacrows", om, n, ap, aj, ax, b, x, rs] =>
+    some <| showRats (jacobiIndexed (parseRat om) (mkR n ap aj ax) (parseRats b) (rows rs) (parseRats x))
+  | ["c09_c_jacrows", om, n, ap, aj, ax, b, x, rs] =>
+    some <| showCRats (jacobiIndexed (parseCRat om) (mkC n ap aj ax) (parseCRats b) (rows rs) (parseCRats x))
+  -- `jacobi` with a complex damping parameter
+  | ["c09_c_jac", om, n, ap, aj, ax, b, x, s0, s1, s2] =>
+    let xv := parseCRats x
+    some <| showCRats (jacobi (parseCRat om) (mkC n ap aj ax) (parseCRats b) (sw s0 s1 s2) (Array.replicate xv.size 0) xv)
+  -- complex indexed kernels
+  | ["c09_c_jaci", om, n, ap, aj, ax, b, x, idx] =>
+    some <| showCRats (jacobiIndexed (parseCRat om) (mkC n ap aj ax) (parseCRats b) (parseNats idx).toList (parseCRats x))
+  | ["c09_c_gsi", n, ap, aj, ax, b, x, idx, s0, s1, s2] =>
+    some <| showCRats (gaussSeidelIndexed (mkC n ap aj ax) (parseCRats b) (parseNats idx) (sw s0 s1 s2) (parseCRats x))
+  -- complex public drivers of the indexed / coarse-fine routines
+  | ["c09_c_pygsi", n, ap, aj, ax, b, x, idx, iters, sweep] =>
+    some <| showCRats (pyGaussSeidelIndexed (mkC n ap aj ax) (parseCRats b) (parseNats idx) (nat iters) (sweepOf sweep) (parseCRats x))
+  | ["c09_c_pyjaci", om, n, ap, aj, ax, b, x, idx, iters] =>
+    some <| showCRats (pyJacobiIndexed (parseCRat om) (mkC n ap aj ax) (parseCRats b) (parseNats idx).toList (nat iters) (parseCRats x))
+  | ["c09_c_pycfjac", cfirst, om, n, ap, aj, ax, b, x, cpts, fpts, iters, fit, cit] =>
+    some <| showCRats (pyCFJacobi (cfirst = "1") (parseCRat om) (mkC n ap aj ax) (parseCRats b) (parseNats cpts).toList (parseNats fpts).toList (nat iters) (nat fit) (nat cit) (parseCRats x))
   | _ => none
 
 end PyamgV.Drv.C09
